@@ -92,6 +92,10 @@ type ownGen struct {
 	// That construct is the recorded known finding C05/O2-const-param-alias; programs compiled at -O 2 avoid it
 	// so that any other alarm at -O 2 is a new one.
 	avoidAlias bool
+	// withErrors: the program may contain one out-of-domain operation (index / slice out of range, used or unused result)
+	// so that "whether and which run-time error occurs" is exercised; only used where configurations are compared (C11)
+	withErrors bool
+	errorsLeft int
 }
 
 var textLits = []string{"a", "Hallo", "äö", "x€y", "𝄞", "Welt!", "ß", "lang genug um zu wachsen"}
@@ -652,6 +656,26 @@ func (g *ownGen) stmt(e *genv, ind int) {
 		}
 	case k == 9 && nested < 3: // loops
 		g.loopStmt(e, ind)
+	case k == 13 && g.withErrors && g.errorsLeft > 0 && r.Chance(0.5): // an out-of-domain operation
+		g.errorsLeft--
+		switch r.Intn(4) {
+		case 0: // unused result in a local (dead unless the call has an effect)
+			x, n := g.expr(e, tT, 1)
+			g.line(ind, fmt.Sprintf("Der Buchstabe %s ist (%s an der Stelle %d).", g.fresh("tot"), x, n+50))
+			g.role(tT, "out-of-range-index-unused")
+		case 1:
+			x, n := g.expr(e, tZL, 1)
+			g.line(ind, fmt.Sprintf("Die Zahl %s ist (%s an der Stelle %d).", g.fresh("tot"), x, n+50))
+			g.role(tZL, "out-of-range-index-unused")
+		case 2:
+			x, n := g.expr(e, tTL, 1)
+			g.line(ind, fmt.Sprintf("Schreibe (%s an der Stelle %d) auf eine Zeile.", x, n+50))
+			g.role(tTL, "out-of-range-index-used")
+		default:
+			x, _ := g.expr(e, tT, 1)
+			g.line(ind, fmt.Sprintf("Schreibe (%s an der Stelle 0) auf eine Zeile.", x))
+			g.role(tT, "index-zero")
+		}
 	case k == 14 || k == 15 || k == 16: // a call nested in the argument of another call (the output function), results observed
 		var fs []*gfunc
 		for _, f := range g.funcs {
@@ -915,7 +939,11 @@ func genOwnProgram(r *prng.R, idx int, avoidAlias bool) *HProg {
 }
 
 func genOwnProgramOpt(r *prng.R, idx int, avoidAlias, selfContained bool) *HProg {
-	g := &ownGen{r: r, roles: map[string]bool{}, avoidAlias: avoidAlias}
+	return genOwnProgramFull(r, idx, avoidAlias, selfContained, false)
+}
+
+func genOwnProgramFull(r *prng.R, idx int, avoidAlias, selfContained, withErrors bool) *HProg {
+	g := &ownGen{r: r, roles: map[string]bool{}, avoidAlias: avoidAlias, withErrors: withErrors, errorsLeft: 1}
 	if selfContained {
 		g.b.WriteString(selfPrelude)
 		g.b.WriteString(strings.TrimPrefix(ownPrelude, "Binde \"Duden/Ausgabe\" ein.\n"))
